@@ -22,9 +22,9 @@ PLAN = {
     "C05": dict(mc_q=[("singlecancel", 2, 4), ("flowcancel", 2, 3), ("flowbatch", 2, 4)],
                 mc_t=[("singlecancel", 3, 4), ("flowcancel", 2, 4), ("flowbatch", 2, 5)],
                 gen_q=("cancelenum,cancel", 60), gen_t=("cancelenum,cancel", 800)),
-    "C10": dict(mc_q=[("nestsmall", 1, 4), ("nesterr", 2, 3)],
-                mc_t=[("nest", 1, 5), ("nest3", 1, 5), ("nesterr", 2, 4)],
-                gen_q=("nest", 250), gen_t=("nest,err", 4000)),
+    "C10": dict(mc_q=[("nestsmall", 1, 4), ("nesterr", 2, 3), ("flowretry", 1, 5)],
+                mc_t=[("nest", 1, 5), ("nest3", 1, 5), ("nesterr", 2, 4), ("flowretry", 1, 6)],
+                gen_q=("nest,flowretry", 180), gen_t=("nest,err,flowretry", 3000)),
     "C17": dict(mc_q=[("single", 2, 4), ("singleeres", 2, 4), ("singlenil", 2, 4), ("singlererun", 1, 4)],
                 mc_t=[("single", 3, 4), ("singleeres", 3, 4), ("singlenil", 3, 4), ("singlererun", 1, 4), ("flow2empty", 1, 4)],
                 gen_q=("single,plain", 200), gen_t=("single,plain,err", 4000)),
